@@ -192,6 +192,13 @@ def main():
 
     silence_stderr(os.path.join(args.out, f'shard_{args.shard}.stderr'))
     t0 = time.time()
+    cov = None
+    if os.environ.get('VERIF_COV'):     # developer aid (tools/coverage.sh): which lines of dliswriter do the checks reach
+        import coverage
+        os.makedirs(os.environ['VERIF_COV'], exist_ok=True)
+        cov = coverage.Coverage(data_file=os.path.join(os.environ['VERIF_COV'], f'cov.{args.prop}.{args.shard}'),
+                                branch=True, include=[os.path.join(os.environ.get('VERIF_REPO', '/repo'), 'src/dliswriter/*')])
+        cov.start()
     from vf.core import Ctx
     mod = importlib.import_module('vf.props.' + args.prop.lower())
     prop = mod.PROP
@@ -241,6 +248,9 @@ def main():
                 pass
         shutil.rmtree(scratch, ignore_errors=True)
 
+    if cov is not None:
+        cov.stop()
+        cov.save()
     np.save(os.path.join(args.out, f'shard_{args.shard}.npy'), np.array(sorted(col.digests), dtype=np.uint64))
     out = {
         'shard': args.shard, 'evaluations': col.evaluations, 'labels': col.labels, 'outcomes': col.outcomes,
